@@ -148,7 +148,7 @@ func (c *ctx) rangeSmallSection(r *lib.RNG, out chan<- batch, rcfg string) {
 					if len(cl.Keys) == 0 {
 						return
 					}
-					if ok, _ := claimTruth(cl); ok {
+					if ok, _ := claimTruth(cl); ok && kind != "genuine-element-left-of-first-added" {
 						return
 					}
 					eval(cl)
@@ -195,7 +195,7 @@ func (c *ctx) rangeSmallSection(r *lib.RNG, out chan<- batch, rcfg string) {
 				}
 				// an element left of first added (outside the interval)
 				if lo > 0 {
-					tamp("element-left-of-first-added", func(cl *RangeClaim) {
+					tamp("genuine-element-left-of-first-added", func(cl *RangeClaim) {
 						cl.Keys = append([]string{kvs[lo-1].K}, cl.Keys...)
 						cl.Values = append([]string{kvs[lo-1].V}, cl.Values...)
 					})
